@@ -77,6 +77,13 @@ Layouts == [
   PinZero  |-> << Pool("p1", <<"b0">>, FALSE, TRUE, NULL),
                   Pool("p2", <<"b3">>, FALSE, TRUE, Pin(0, {"ns1"}, {})),
                   Pool("p3", <<"b45">>, FALSE, TRUE, Pin(5, {}, {"x"})) >>,
+  PinZero2 |-> << Pool("p1", <<"b0">>, FALSE, TRUE, NULL),
+                  Pool("p2", <<"b3">>, FALSE, TRUE, Pin(5, {"ns1"}, {})),
+                  Pool("p3", <<"b45">>, FALSE, TRUE, Pin(0, {"ns1"}, {})) >>,
+  PinZero3 |-> << Pool("p1", <<"b0">>, FALSE, TRUE, NULL),
+                  Pool("p2", <<"b3">>, FALSE, TRUE, Pin(7, {"ns1"}, {})),
+                  Pool("p3", <<"b45">>, FALSE, TRUE, Pin(0, {}, {"x"})),
+                  Pool("p4", <<"v01">>, FALSE, TRUE, Pin(3, {}, {"x"})) >>,
   PinAll   |-> << Pool("p1", <<"b0">>, FALSE, TRUE, NULL),
                   Pool("p2", <<"b3">>, FALSE, TRUE, Pin(0, {}, {})) >>,
   PinDual  |-> << Pool("p1", <<"b0">>, FALSE, TRUE, Pin(1, {"ns1"}, {})),
